@@ -209,6 +209,8 @@ func (p *renderState) buildNode(t *Token) (res Node) {
 		t.Val = strings.Replace(t.Val, "}}", `--}}--`, -1)
 		t.Val = strings.Replace(t.Val, "--{{--", `{{"{{"}}`, -1)
 		t.Val = strings.Replace(t.Val, "--}}--", `{{"}}"}}`, -1)
+		// a single "{" directly before one of the quoted delimiters above would form a delimiter with its "{{"
+		t.Val = strings.Replace(t.Val, "{{{", `{{"{"}}{{`, -1)
 		if strings.HasSuffix(t.Val, "{") {
 			// a trailing "{" would form a delimiter with the "{" that may follow (an action or the next text)
 			t.Val = t.Val[:len(t.Val)-1] + `{{"{"}}`
